@@ -358,6 +358,7 @@ class Service:
         for name in VIEW_METHODS:
             self.is_coro[name] = flavour != 'sync'
         self.is_coro['whoami_explicit'] = self.is_coro['whoami']
+        self.is_coro['echo_guarded'] = self.is_coro['echo']
 
     # -- wrappers ----------------------------------------------------------------------------------
     def _enter(self, name: str, args: Tuple[Any, ...], kwargs: Dict[str, Any]) -> str:
